@@ -24,7 +24,7 @@ PROPS = {
         theorems=['C02_struct_eq_fieldwise', 'C02_enum_eq_fieldwise', 'C02_ignored_irrelevant',
                   'C02_only_eq_defined', 'C02_equivalence'],
         streams=[stream('peq', 'items:PartialEq,Eq', force=['PartialEq'], kinds=('struct', 'enum'))],
-        k2=['eq'],
+        k2=['eq'], k2_n=(80, 800),
         level_text='Theorems (closed under the global context) that the emitted `eq` of every struct / enum computes field-wise equality over the non-ignored fields, for all type definitions, attribute assignments, values and field-type behaviours; the model is tied to /repo by K1 (token equality of the PartialEq/Eq impls on generated inputs) and the real compiled code is compared with an independent oracle on enumerated value pairs (K2).',
         level_note='Trusted: Coq kernel; the hand-written model (tied by K1 on sampled inputs, not proved equal to the Rust source); Sem/Interp.v as the meaning of the emitted Rust subset; rustc as oracle in K2.',
     ),
@@ -33,57 +33,57 @@ PROPS = {
         theorems=[],
         streams=[stream('ord', 'items:PartialOrd,Ord', force=['Ord'], kinds=('struct', 'enum')),
                  stream('pord', 'items:PartialOrd,Ord', force=['PartialOrd'], kinds=('struct', 'enum'))],
-        k2=['ord'],
+        k2=['ord'], k2_n=(100, 800),
     ),
     'C04': dict(
         title='Enum variants order by declared discriminant, never by memory layout',
         theorems=[],
         streams=[stream('ordenum', 'items:PartialOrd,Ord', force=['Ord'], kinds=('enum',), n=(1000, 20000)),
                  stream('pordenum', 'items:PartialOrd,Ord', force=['PartialOrd'], kinds=('enum',), n=(1000, 20000))],
-        k2=['ordlayout'],
+        k2=['ordlayout'], k2_n=(100, 800),
     ),
     'C05': dict(
         title='Hash input is a function of the variant and non-ignored fields only',
         theorems=[],
         streams=[stream('hash', 'items:Hash', force=['Hash'], kinds=('struct', 'enum'))],
-        k2=['hash'],
+        k2=['hash'], k2_n=(100, 800),
     ),
     'C06': dict(
         title="Debug renders the effective shape exactly like core::fmt's builders",
         theorems=[],
         streams=[stream('debug', 'items:Debug', force=['Debug'], kinds=('struct', 'enum'))],
-        k2=['debug'],
+        k2=['debug'], k2_n=(160, 1500),
     ),
     'C07': dict(
         title='Clone and clone_from reproduce the source value field by field',
         theorems=[],
         streams=[stream('clone', 'items:Clone,Copy', force=['Clone'], kinds=('struct', 'enum', 'union'))],
-        k2=['clone'],
+        k2=['clone'], k2_n=(80, 800),
     ),
     'C08': dict(
         title='Default builds exactly the designated value',
         theorems=[],
         streams=[stream('default', 'items:Default,inherent', force=['Default'], kinds=('struct', 'enum', 'union'))],
-        k2=['default'],
+        k2=['default'], k2_n=(200, 2000),
     ),
     'C20': dict(
         title='Union impls are byte-wise and only generated behind an explicit unsafe',
         theorems=[],
         streams=[stream('union', 'whole', kinds=('union',), faults=0.3)],
-        k2=['union'],
+        k2=['union'], k2_n=(80, 800),
     ),
     'C09': dict(
         title='Deref and DerefMut expose exactly the designated field',
         theorems=[],
         streams=[stream('deref', 'items:Deref,DerefMut', force=['Deref'], kinds=('struct', 'enum')),
                  stream('derefmut', 'items:Deref,DerefMut', force=['Deref', 'DerefMut'], kinds=('struct', 'enum'), n=(800, 15000))],
-        k2=['deref'],
+        k2=['deref'], k2_n=(80, 800),
     ),
     'C10': dict(
         title='Into returns the designated field for every requested target type',
         theorems=[],
         streams=[stream('into', 'items:Into', force=['Into'], kinds=('struct', 'enum'))],
-        k2=['into'],
+        k2=['into'], k2_n=(80, 800),
     ),
     'C01': dict(
         title='Every accepted derive request expands to code that compiles',
